@@ -3,7 +3,8 @@ SPEC = {
     "level": "proof",
     "lean_modules": ["PallasVerif.Props.C03"],
     "required_theorems": [
-        "anyuint_roundtrip", "anyuint_preserves", "keepraw_preserves", "keepraw_mutation_reencodes", "anycbor_preserves",
+        "anyuint_roundtrip", "anyuint_preserves", "keepraw_preserves", "keepraw_mutation_reencodes", "keepraw_mutation_reencodes_every_history",
+        "keepraw_unmutated_history_keeps_original", "anycbor_preserves",
         "nullable_roundtrip", "nullable_preserves", "maybeIndef_roundtrip", "kvp_roundtrip",
         "maybeIndef_preserves_partial", "kvp_preserves_partial", "full_pres_containers_fails_at_witness",
         "tagwrap_roundtrip", "cborwrap_roundtrip", "zeroOrOne_roundtrip", "set_roundtrip",
@@ -19,7 +20,11 @@ SPEC = {
             "byte x short tails, typed shapes, random bytes, one-byte mutations) followed by 1..6 primitive calls; non-trivial = at "
             "least one call accepted and one rejected. cborwrap: 58 concrete instantiations of the utils.rs wrappers (depth <= 3) x "
             "{rt <value from seed> | dec <restyled encoding: other head widths, def<->indef flips> | truncated / mutated / foreign "
-            "item | KeepRaw mut/peek}; thorough adds the exhaustive small domains (every 1- and 2-byte input of AnyUInt, every two-byte container head; every initial byte x second byte x primitive for minicbor); non-trivial = a value whose encoding is longer than one byte round-tripped, or a "
+            "item | KeepRaw mut/peek}; 1/10 of the cases drive a live KeepRaw through a random history of its public operations (kr.dec / "
+            "kr.from, then 1..8 of to_owned, clone, deref, deref_mut+mutation, clear_raw, with encode / raw_cbor observed in between and at "
+            "the end, unwrap); 1/10 run the form-keeping conversions (NonEmptyKeyValuePairs::try_from(KeyValuePairs), to_vec / From<Vec>, "
+            "AnyCbor::from_encode / into_decode / unwrap, Set::from(Set<KeepRaw<_>>)); restyling also writes byte / text strings in the "
+            "indefinite (chunked) form; thorough adds the exhaustive small domains (every 1- and 2-byte input of AnyUInt, every two-byte container head; every initial byte x second byte x primitive for minicbor); non-trivial = a value whose encoding is longer than one byte round-tripped, or a "
             "retaining wrapper accepted an input longer than one byte (and was compared with its re-encoding). distinct = sha1 of op text.",
     "trusted_base": [
         "Model/Minicbor.lean is a hand transcription of minicbor 0.26.5 decode/decoder.rs (+ Vec/Option/tuple/map_iter impls of decode.rs, "
